@@ -7,16 +7,22 @@ from rules.common import *  # noqa
 CLONE = ('core::clone::Clone', 'std::clone::Clone')
 
 
-def _eta(val, src, fieldnames):
-    """val is `src` rebuilt field by field"""
+def _eta(val, src, fieldnames, layouts):
+    """val is `src` rebuilt field by field (nested crate-local *structs* may be rebuilt too; an enum value such as `None`, or any
+    other constructor, is not a copy of `src`)"""
     if val == src:
         return True
     if val is None or val[0] != 'adt':
         return False
     got = dict(val[3])
-    if fieldnames is not None and set(got) != set(fieldnames):
+    if fieldnames is None:
+        lay = layouts.get(val[1])
+        if lay is None or lay.get('kind') != 'struct' or len(lay.get('variants', [])) != 1:
+            return False
+        fieldnames = [f['name'] for f in lay['variants'][0]['fields']]
+    if set(got) != set(fieldnames):
         return False
-    return all(_eta(v, ('fld', src, k), None) for k, v in got.items())
+    return all(_eta(v, ('fld', src, k), None, layouts) for k, v in got.items())
 
 
 def check(ctx, rep, rule):
@@ -24,6 +30,10 @@ def check(ctx, rep, rule):
     for sn in ctx.suite_names:
         S = ctx.suite(sn)
         n = 0
+        layouts = {}
+        for k, v in S.types.items():
+            if v.get('dpath'):
+                layouts.setdefault(v['dpath'], v)
         for b in list(S.bodies.values()):
             if b.get('crate') != 'opaque_ke' or b.get('impl_trait_dpath') not in CLONE or b.get('name') != 'clone':
                 continue
@@ -54,7 +64,7 @@ def check(ctx, rep, rule):
             elif good:
                 fns = [f['name'] for f in lay['variants'][0]['fields']] if lay is not None and lay.get('variants') else None
                 for p in s.paths:
-                    ok = _eta(p.value, Sym('self'), fns)
+                    ok = _eta(p.value, Sym('self'), fns, layouts)
                     good = good and ok
                     detail = detail or ('' if ok else 'clone returns %s' % show(p.value)[:200])
             n += int(good)
